@@ -11,6 +11,8 @@
   kwswap     reformat + keyword arguments of calls in reversed order
   ifexp      reformat + conditional expressions <-> if/else statements
   recvtemp   reformat + `a.b.c(args)` -> `_recv = a.b; _recv.c(args)`
+  poskw      positional arguments of calls to repository functions, methods and constructors passed by keyword
+  kwpos      keyword arguments of such calls passed by position where the order allows
   npalias    reformat + `import numpy as np` -> `import numpy as npx`, uses renamed
 
 usage: python3 tools/equivalents.py [variant ...] [--checks C01,C02,...] [--keep]
@@ -238,7 +240,86 @@ def recv_temp(tree):
 
 
 VARIANTS = {"reformat": lambda t: t, "rename": rename_locals, "rettemp": return_temp, "ifelse": if_else, "condtemp": cond_temp, "negif": negated_if,
-            "mulswap": mul_swap, "cmpflip": cmp_flip, "kwswap": kw_swap, "ifexp": if_exp, "npalias": np_alias, "recvtemp": recv_temp}
+            "mulswap": mul_swap, "cmpflip": cmp_flip, "kwswap": kw_swap, "ifexp": if_exp, "npalias": np_alias, "recvtemp": recv_temp, "poskw": None, "kwpos": None}
+
+
+def build_resolved(variant, work):
+    """variants that need the callee of a call: done on the source model of /verif (module-level functions, methods reached through
+    an instance or the class, constructors of the repository)"""
+    sys.path.insert(0, VERIF)
+    from sa.src import Func, Source
+
+    src = Source()
+    n_calls = 0
+    from sa.src import Class
+
+    ftypes = {}
+    for q, f in src.funcs.items():
+        cl = f.cls or (f.parent.cls if f.parent else None)
+        if cl is not None and cl.qname not in ftypes:
+            ftypes[cl.qname] = src.field_types(cl)
+        lt = ftypes.get(cl.qname) if cl is not None else None
+        for c in src.calls_in(f):
+            r = src.resolve_call(f, c, lt)
+            skip = 0
+            if isinstance(r, Class):
+                init = src.find_method(r, "__init__")
+                if init is None:
+                    if not r.is_dataclass or r.node.bases or r.is_jitclass:
+                        continue
+                    names = [nm for nm, (ann, _d) in r.fields().items() if "ClassVar" not in ann and "InitVar" not in ann]
+                    if any(isinstance(d, ast.Call) and "init=False" in ast.unparse(d) for _a, d in r.fields().values() if d is not None):
+                        continue
+                    a = None
+                else:
+                    if init.cls is not r:
+                        continue
+                    a = init.node.args
+                    skip = 1
+            elif isinstance(r, Func) and r.parent is None:
+                a = r.node.args
+                if r.cls is not None:
+                    decs = " ".join(r.decorator_names())
+                    if "property" in decs or "setter" in decs or not isinstance(c.func, ast.Attribute):
+                        continue
+                    recv = src.dotted(c.func.value)
+                    via_class = recv is not None and isinstance(src.resolve_name(f.module, recv), str) and src.resolve_name(f.module, recv) in src.classes
+                    if "staticmethod" in decs:
+                        skip = 0
+                    elif "classmethod" in decs or not via_class:
+                        skip = 1
+                    else:
+                        continue
+            else:
+                continue
+            if a is not None:
+                if a.vararg or a.kwarg or a.posonlyargs:
+                    continue
+                names = [x.arg for x in a.args][skip:]
+            if any(isinstance(x, ast.Starred) for x in c.args) or any(k.arg is None for k in c.keywords):
+                continue
+            if variant == "poskw" and c.args and len(c.args) <= len(names):
+                c.keywords = [ast.keyword(arg=names[i], value=v) for i, v in enumerate(c.args)] + c.keywords
+                c.args = []
+                n_calls += 1
+            if variant == "kwpos" and c.keywords:
+                given = {k.arg: k.value for k in c.keywords}
+                i = len(c.args)
+                while i < len(names) and names[i] in given:
+                    c.args.append(given.pop(names[i]))
+                    i += 1
+                if len(given) < len(c.keywords):
+                    c.keywords = [k for k in c.keywords if k.arg in given]
+                    n_calls += 1
+    n = 0
+    for m in src.modules.values():
+        rel = os.path.relpath(str(m.path), "/repo")
+        out = ast.unparse(ast.fix_missing_locations(m.tree)) + "\n"
+        compile(out, rel, "exec")
+        open(f"{work}/{rel}", "w").write(out)
+        n += 1
+    print(f"   ({n_calls} calls rewritten)")
+    return work, n
 
 
 def build(variant):
@@ -246,6 +327,8 @@ def build(variant):
     shutil.rmtree(work, ignore_errors=True)
     os.makedirs(work)
     subprocess.run(f"rsync -a --exclude __pycache__ /repo/src /repo/crates {work}/", shell=True, check=True)
+    if variant in ("poskw", "kwpos"):
+        return build_resolved(variant, work)
     n = 0
     for root, _d, files in os.walk(f"{work}/src"):
         for f in files:
